@@ -37,11 +37,14 @@ def run_lifecycle(sc):
         except queue.Empty:
             return None
     params = {'blocksize': sc['bs'], 'stmin': sc['stmin']}
+    params.update(sc.get('params_extra') or {})
     peer = None
     peer_params = dict(sc.get('peer_params') or {'blocksize': 4})
     # frames the harness itself puts on the bus towards A (a First Frame longer than max_frame_size, a stray Flow Control)
     inj = {'inject_toolong': gen.rx_match_frame(a, bytes([0x10, 0x00, 0x00, 0x00, 0x20, 0x00, 0xAA, 0xBB])),
-           'inject_fc': gen.rx_match_frame(a, bytes([0x30, 0x00, 0x00]))}
+           'inject_fc': gen.rx_match_frame(a, bytes([0x30, 0x00, 0x00])),
+           'inject_ff': gen.rx_match_frame(a, bytes([0x10, 20, 1, 2, 3, 4, 5, 6]))}
+    rx_after = []       # is_rx_active() right after each stop_receiving() that returned normally on a started layer
     if kind == 'tl':
         rxfn_a = rx_a
         if sc.get('legacy'):
@@ -100,7 +103,10 @@ def run_lifecycle(sc):
             elif op == 'stop_sending':
                 L.stop_sending()
             elif op == 'stop_receiving':
+                was_started = L.started
                 L.stop_receiving()
+                if was_started:
+                    rx_after.append(bool(L.is_rx_active()))
             elif op == 'process':
                 L.process()
             elif op == 'process_rx':
@@ -165,7 +171,7 @@ def run_lifecycle(sc):
         except Exception:
             pass
     leftover = [t.name for t in threading.enumerate() if t not in base_threads and t.is_alive() and 'Notifier' not in t.name]
-    sc['_result'] = {'info': info, 'restart_ok': restart_ok, 'leftover': leftover, 'errors': errors}
+    sc['_result'] = {'rx_after_stop_receiving': rx_after, 'info': info, 'restart_ok': restart_ok, 'leftover': leftover, 'errors': errors}
     return lines_in, lines_out
 
 
@@ -245,6 +251,25 @@ class C14(PropBase):
                     yield {'ops': [], 'ops_list': list(ops), 'addrs': (a, b), 'kind': 'tl', 'peer': False, 'read_timeout': 0.05, 'bs': 2,
                            'stmin': 0, 'seed': 1000 + k, 'legacy': legacy, 'idle_sleep': idle}
 
+        # a reading thread that really blocks for a read_timeout above the 1 s floor of stop()'s join: stop() has to wait for it
+        for ops in (['start', 'sleep', 'stop'], ['start', 'send_sf', 'sleep', 'stop', 'start', 'sleep', 'stop']):
+            k += 1
+            yield {'ops': [], 'ops_list': list(ops), 'addrs': (a, b), 'kind': 'tl', 'peer': False, 'read_timeout': 1.6, 'bs': 2, 'stmin': 0,
+                   'seed': 1000 + k}
+        # a reception in progress, a reading / worker thread that blocks for longer than the 1 s stop_receiving() waits for its acknowledgement
+        for rt in (1.6, 0.05):
+            for ops in (['start', 'inject_ff', 'sleep', 'sleep', 'stop_receiving', 'stop'], ['start', 'inject_ff', 'sleep', 'sleep', 'stop_receiving', 'sleep', 'stop_receiving', 'stop']):
+                k += 1
+                yield {'ops': [], 'ops_list': list(ops), 'addrs': (a, b), 'kind': 'tl', 'peer': False, 'read_timeout': rt, 'bs': 2, 'stmin': 0,
+                       'seed': 1000 + k}
+        # rate limiter with a long window: what was sent before a stop() / reset() must not count against the restarted layer
+        # (402 bits per 3 s window: one 20-byte message = 192 bits, the 30-byte message of the restart check = 320 bits)
+        for ops in (['start', 'send_mf', 'sleep', 'sleep', 'sleep', 'stop'], ['start', 'send_mf', 'sleep', 'sleep', 'sleep', 'stop', 'start', 'sleep', 'stop'],
+                    ['send_mf', 'process', 'sleep', 'process', 'sleep', 'process', 'reset']):
+            k += 1
+            yield {'ops': [], 'ops_list': list(ops), 'addrs': (a, b), 'kind': 'tl', 'peer': True, 'read_timeout': 0.05, 'bs': 0, 'stmin': 0,
+                   'seed': 1000 + k, 'params_extra': {'rate_limit_enable': True, 'rate_limit_max_bitrate': 134, 'rate_limit_window_size': 3.0}}
+
     def run_impl(self, sc):
         return run_lifecycle(sc)
 
@@ -279,6 +304,8 @@ class C14(PropBase):
                 out.append(('exceptions', '%s raised %s' % (op, exc)))
             elif exc is not None:
                 out.append(('exceptions', '%s() raised %s' % (op, exc)))
+        if any(res.get('rx_after_stop_receiving') or []):
+            out.append(('stop_receiving', 'stop_receiving() returned normally on a started layer but the reception is still in progress'))
         if res['restart_ok'] is False:
             out.append(('restart', 'a stopped layer that was started again did not transfer a payload'))
         if res['leftover']:
